@@ -27,19 +27,18 @@ Record pcase := mkP {
 Definition frame_matches (m : cmode) (model : frame) (pre : list row) (got : list string * list row) : bool :=
   list_eqb String.eqb (cols model) (fst got) && cmp_rows m (rows model) pre (snd got).
 
-(** verdict: certified | raw model = collect() | opt model = optimised text on the engine (1 when not applicable) *)
+(** verdict: certified | raw model = collect() | opt model = optimised text on the engine (1 when not applicable)
+            | the same two comparisons as multisets (order ignored) *)
 Definition check_pair (k : pcase) : string :=
   let cs := cols (p_input k) in
   let mraw := eval_chain (p_raw k) (p_input k) in
-  let pre := match p_mode k with
-             | MSub _ => rows (eval_chain (removelast (p_raw k)) (p_input k))
-             | _ => [] end in
   let cert := match p_opt k with Some o => equiv_check cs (p_raw k) o | None => false end in
-  let mr := frame_matches (p_mode k) mraw pre (p_collect k) in
-  let mo := match p_opt k, p_opttext k with
-            | Some o, Some got => frame_matches (p_mode k) (eval_chain o (p_input k)) pre got
-            | _, _ => true end in
-  (b2s cert ++ b2s mr ++ b2s mo)%string.
+  let mr := frame_matches (p_mode k) mraw [] (p_collect k) in
+  let mrb := frame_matches (match p_mode k with MSeq => MBag | m => m end) mraw [] (p_collect k) in
+  let mo m := match p_opt k, p_opttext k with
+              | Some o, Some got => frame_matches m (eval_chain o (p_input k)) [] got
+              | _, _ => true end in
+  (b2s cert ++ b2s mr ++ b2s (mo (p_mode k)) ++ b2s mrb ++ b2s (mo (match p_mode k with MSeq => MBag | m => m end)))%string.
 
 (** certification only (one per program) *)
 Definition check_equiv (c : list string * list block * list block) : bool :=
